@@ -90,6 +90,10 @@ func spellSeg(g string, i int) string {
 		return "/* select  'x \n\n\n\n  from  */"
 	case "dollarMulti":
 		return "$$ select  \n\n\n\n  from $$"
+	case "cmtBsq":
+		return "/* isn\\'t  select */"
+	case "dollarBsq":
+		return "$fn$ it\\'s  select $fn$"
 	}
 	core.Fatalf("unknown segment %s", g)
 	return ""
@@ -215,7 +219,7 @@ func hasMulti(c *tcase) bool {
 func firstProtected(c *tcase) string {
 	for _, g := range c.Segs {
 		switch g {
-		case "strKw", "strMulti", "strMultiCrlf", "strEsc", "strBs", "qidKw", "btKw", "cmtLine", "cmtPlain", "cmtBlockOne", "cmtBlock", "dollarMulti":
+		case "strKw", "strMulti", "strMultiCrlf", "strEsc", "strBs", "qidKw", "btKw", "cmtLine", "cmtPlain", "cmtBlockOne", "cmtBlock", "dollarMulti", "cmtBsq", "dollarBsq":
 			return g
 		}
 	}
@@ -229,7 +233,7 @@ func lineContent(c *tcase, li int) string {
 	for i, g := range c.Segs {
 		if line == li {
 			switch g {
-			case "strKw", "strEsc", "strBs", "qidKw", "btKw", "cmtLine", "cmtPlain", "cmtBlockOne":
+			case "strKw", "strEsc", "strBs", "qidKw", "btKw", "cmtLine", "cmtPlain", "cmtBlockOne", "cmtBsq", "dollarBsq":
 				m[g] = true
 			}
 		}
@@ -258,7 +262,7 @@ func shape(c *tcase) string {
 	m := map[string]bool{}
 	for _, g := range c.Segs {
 		switch g {
-		case "strKw", "strMulti", "strMultiCrlf", "strEsc", "strBs", "qidKw", "btKw", "cmtLine", "cmtPlain", "cmtBlockOne", "cmtBlock", "dollarMulti":
+		case "strKw", "strMulti", "strMultiCrlf", "strEsc", "strBs", "qidKw", "btKw", "cmtLine", "cmtPlain", "cmtBlockOne", "cmtBlock", "dollarMulti", "cmtBsq", "dollarBsq":
 			m[g] = true
 		}
 	}
@@ -282,7 +286,7 @@ func culprit(c *tcase, out string) string {
 	}
 	for i, g := range c.Segs {
 		switch g {
-		case "strKw", "strMulti", "strMultiCrlf", "strEsc", "strBs", "qidKw", "btKw", "cmtLine", "cmtPlain", "cmtBlockOne", "cmtBlock", "dollarMulti":
+		case "strKw", "strMulti", "strMultiCrlf", "strEsc", "strBs", "qidKw", "btKw", "cmtLine", "cmtPlain", "cmtBlockOne", "cmtBlock", "dollarMulti", "cmtBsq", "dollarBsq":
 			if !strings.Contains(out, spellSeg(g, i)) {
 				return g
 			}
